@@ -14,12 +14,13 @@
 #include <cmath>
 #include <csignal>
 #include <numeric>
+#include <thread>
 
 using namespace vh;
 
 // ---------------------------------------------------------------------------------- UB trap
-static sigjmp_buf g_ubjmp;
-static volatile sig_atomic_t g_ubarmed = 0;
+static thread_local sigjmp_buf g_ubjmp;
+static thread_local volatile sig_atomic_t g_ubarmed = 0;
 static void on_trap(int)
 {
     if (g_ubarmed) { siglongjmp(g_ubjmp, 1); }
@@ -195,10 +196,12 @@ static U1I<T> const* u1i_table(std::size_t& n)
     return t;
 }
 
+// C leaves the choice between +0 and -0 open when both operands are zeros (F.10.9.2 footnote) and
+// glibc/GCC are not consistent about it; the framework's reference picks the first operand there
 template <typename T>
-static T ref_fmin(T x, T y) { return std::fmin(x, y); }
+static T ref_fmin(T x, T y) { return (x == T(0) && y == T(0)) ? x : std::fmin(x, y); }
 template <typename T>
-static T ref_fmax(T x, T y) { return std::fmax(x, y); }
+static T ref_fmax(T x, T y) { return (x == T(0) && y == T(0)) ? x : std::fmax(x, y); }
 
 template <typename T>
 static B2<T> const* b2_table(std::size_t& n)
@@ -220,8 +223,6 @@ static B2<T> const* b2_table(std::size_t& n)
         {"g_fmod", [](T x, T y) -> T { return g::fmod(x, y); }, [](T x, T y) -> T { return std::fmod(x, y); }},
         {"g_remainder", [](T x, T y) -> T { return g::fmod(x, y); },
             [](T x, T y) -> T { return std::remainder(x, y); }},
-        {"g_min", [](T x, T y) -> T { return g::min(x, y); }, ref_fmin<T>},
-        {"g_max", [](T x, T y) -> T { return g::max(x, y); }, ref_fmax<T>},
         {"copysign_fb", [](T x, T y) -> T { return etl::detail::copysign_fallback(x, y); },
             [](T x, T y) -> T { return std::copysign(x, y); }},
     };
@@ -231,35 +232,75 @@ static B2<T> const* b2_table(std::size_t& n)
 
 // ---------------------------------------------------------------------------------- sweeps
 // "sweep<bits> <func> <start> <stride> <count>": compares impl and reference on the patterns
-// start, start+stride, ... ; prints "ok <mismatches> <first mismatching pattern or ->"
+// start, start+stride, ... ; prints "ok <mismatches> <first mismatching pattern or ->".
+// The range is split over VERIF_THREADS (default 8) threads.
+static unsigned sweep_threads()
+{
+    char const* e = std::getenv("VERIF_THREADS");
+    long n        = e != nullptr ? std::strtol(e, nullptr, 10) : 8;
+    return static_cast<unsigned>(n < 1 ? 1 : (n > 64 ? 64 : n));
+}
+
+template <typename Body>
+static void par_sweep(u64 start, u64 stride, u64 count, u64 mask, Body body, u64& bad, u64& first)
+{
+    unsigned const nt = sweep_threads();
+    std::vector<u64> bads(nt, 0), firsts(nt, 0), idx(nt, ~0ULL);
+    std::vector<std::thread> th;
+    for (unsigned t = 0; t < nt; ++t) {
+        u64 lo = count / nt * t + (t < count % nt ? t : count % nt);
+        u64 hi = lo + count / nt + (t < count % nt ? 1 : 0);
+        th.emplace_back([&, t, lo, hi] {
+            u64 p = (start + lo * stride) & mask;
+            for (u64 i = lo; i < hi; ++i, p = (p + stride) & mask) {
+                bool mism;
+                g_ubarmed = 1;
+                if (sigsetjmp(g_ubjmp, 0) == 0) {
+                    mism = body(p);
+                } else {
+                    mism = true;
+                }
+                g_ubarmed = 0;
+                if (mism) {
+                    if (bads[t] == 0) {
+                        firsts[t] = p;
+                        idx[t]    = i;
+                    }
+                    ++bads[t];
+                }
+            }
+        });
+    }
+    for (auto& x : th) { x.join(); }
+    bad          = 0;
+    u64 best     = ~0ULL;
+    for (unsigned t = 0; t < nt; ++t) {
+        bad += bads[t];
+        if (idx[t] < best) {
+            best  = idx[t];
+            first = firsts[t];
+        }
+    }
+}
+
 template <typename T>
 static bool run_sweep(std::string const& fn, u64 start, u64 stride, u64 count, Out& impl, Out& ref)
 {
-    std::size_t n = 0;
-    u64 bad       = 0;
-    u64 first     = 0;
-    bool found    = false;
-    auto note     = [&](u64 p) {
-        if (bad == 0) { first = p; }
-        ++bad;
-    };
+    std::size_t n  = 0;
+    u64 bad        = 0;
+    u64 first      = 0;
+    bool found     = false;
     u64 const mask = Fmt<T>::bits == 32 ? 0xffffffffULL : ~0ULL;
     {
         auto const* t = u1_table<T>(n);
         for (std::size_t k = 0; k < n && !found; ++k) {
             if (fn == t[k].name) {
-                found  = true;
-                u64 p = start;
-                for (u64 i = 0; i < count; ++i, p = (p + stride) & mask) {
+                found = true;
+                auto e = t[k];
+                par_sweep(start, stride, count, mask, [e](u64 p) {
                     T x = fromb<T>(p);
-                    g_ubarmed = 1;
-                    if (sigsetjmp(g_ubjmp, 0) == 0) {
-                        if (tob(t[k].impl(x)) != tob(t[k].ref(x))) { note(p); }
-                    } else {
-                        note(p);
-                    }
-                    g_ubarmed = 0;
-                }
+                    return tob(e.impl(x)) != tob(e.ref(x));
+                }, bad, first);
             }
         }
     }
@@ -267,12 +308,12 @@ static bool run_sweep(std::string const& fn, u64 start, u64 stride, u64 count, O
         auto const* t = u1b_table<T>(n);
         for (std::size_t k = 0; k < n && !found; ++k) {
             if (fn == t[k].name) {
-                found  = true;
-                u64 p = start;
-                for (u64 i = 0; i < count; ++i, p = (p + stride) & mask) {
+                found = true;
+                auto e = t[k];
+                par_sweep(start, stride, count, mask, [e](u64 p) {
                     T x = fromb<T>(p);
-                    if (t[k].impl(x) != t[k].ref(x)) { note(p); }
-                }
+                    return e.impl(x) != e.ref(x);
+                }, bad, first);
             }
         }
     }
@@ -280,47 +321,46 @@ static bool run_sweep(std::string const& fn, u64 start, u64 stride, u64 count, O
         auto const* t = u1i_table<T>(n);
         for (std::size_t k = 0; k < n && !found; ++k) {
             if (fn == t[k].name) {
-                found  = true;
-                u64 p = start;
-                for (u64 i = 0; i < count; ++i, p = (p + stride) & mask) {
+                found = true;
+                auto e = t[k];
+                par_sweep(start, stride, count, mask, [e](u64 p) {
                     T x = fromb<T>(p);
                     Out r;
-                    t[k].ref(r, x);
-                    if (r.empty()) { continue; }
-                    Out e;
-                    g_ubarmed = 1;
-                    if (sigsetjmp(g_ubjmp, 0) == 0) {
-                        oki(e, t[k].impl(x));
-                    } else {
-                        e.tok("ub");
-                    }
-                    g_ubarmed = 0;
-                    if (e.s != r.s) { note(p); }
-                }
+                    e.ref(r, x);
+                    if (r.empty()) { return false; }
+                    Out o;
+                    oki(o, e.impl(x));
+                    return o.s != r.s;
+                }, bad, first);
             }
         }
     }
     {
-        // binary functions: the second operand is derived from the pattern by a fixed mixing
-        // function so that the sweep visits (x, y) pairs with related and unrelated exponents
+        // binary functions: the second operand is derived from the pattern by fixed mixing
+        // functions so that the sweep visits unrelated, same-exponent, negated and neighbouring pairs
         auto const* t = b2_table<T>(n);
         for (std::size_t k = 0; k < n && !found; ++k) {
             if (fn == t[k].name) {
-                found  = true;
-                u64 p = start;
-                for (u64 i = 0; i < count; ++i, p = (p + stride) & mask) {
+                found = true;
+                auto e = t[k];
+                par_sweep(start, stride, count, mask, [e, mask](u64 p) {
                     T x   = fromb<T>(p);
                     u64 q = (p * 0x9E3779B97F4A7C15ULL + (p >> 7)) & mask;
-                    u64 alt[4];
-                    alt[0] = q;                                    // unrelated
-                    alt[1] = (p ^ (q & 0xffffULL)) & mask;         // same exponent, nearby mantissa
-                    alt[2] = (p ^ (1ULL << (Fmt<T>::bits - 1)));   // negation
-                    alt[3] = (p + (q % 5) - 2) & mask;             // neighbours
+                    u64 alt[5];
+                    alt[0] = q;                                           // unrelated
+                    alt[1] = (p ^ (q & 0xffffULL)) & mask;                // same exponent, nearby significand
+                    alt[2] = (p ^ (1ULL << (Fmt<T>::bits - 1)));          // negation
+                    alt[3] = (p + (q % 5) - 2) & mask;                    // neighbours
+                    alt[4] = (p - ((q % 40) << (Fmt<T>::bits == 32 ? 23 : 52))) & mask; // smaller exponent
+                    bool mism = false;
+                    if (x != x) { x = fromb<T>(Fmt<T>::qnan); } // signaling NaNs are outside Annex F
                     for (u64 a : alt) {
                         T y = fromb<T>(a);
-                        if (tob(t[k].impl(x, y)) != tob(t[k].ref(x, y))) { note(p); }
+                        if (y != y) { y = fromb<T>(Fmt<T>::qnan); }
+                        if (tob(e.impl(x, y)) != tob(e.ref(x, y))) { mism = true; }
                     }
-                }
+                    return mism;
+                }, bad, first);
             }
         }
     }
@@ -400,7 +440,9 @@ static bool run_fmt(std::string const& fn, Toks& in, Out& impl, Out& ref)
         T r          = fn == "hypot3" ? etl::hypot(x, y, z) : etl::hypot(x, y);
         if (special) {
             okf(impl, r);
-            okf(ref, fn == "hypot3" ? std::hypot(x, y, z) : std::hypot(x, y));
+            // (libstdc++ 12's three-argument std::hypot returns NaN for an infinite operand: the
+            // reference composes glibc's two-argument hypot, which follows F.10.4.3)
+            okf(ref, fn == "hypot3" ? std::hypot(std::hypot(x, y), z) : std::hypot(x, y));
         } else {
             impl.tok("ok").tok("finite");
         }
